@@ -6,7 +6,7 @@ CONSTANTS
   MaxEdits = 2
   Families = {1, 2, 3, 4, 5, 6, 7, 8, 9}
   WithDB = {TRUE}
-  KeepGoing = {0, 1}
+  KeepGoing = {1}
   AllowTamper = FALSE
 SPECIFICATION MCSpec
 INVARIANT TypeOK
